@@ -119,7 +119,7 @@ def h_formulas(ctx):
 # ---- data level ---------------------------------------------------------------------------------------------
 DAY = 86400
 T0 = 1330387200
-FIELDS = ["obs", "fcst", "pit", "p1", "p3", "q0.1", "q0.9", "e0", "e1", "e2"]
+FIELDS = ["obs", "fcst", "pit", "p1", "p3", "p0.1", "q0.1", "q0.9", "e0", "e1", "e2"]
 
 
 def dataset(seed):
@@ -136,6 +136,7 @@ def dataset(seed):
         ai.fields["fcst"][pos] = obs[(n + 3) % 8] + 0.25
         ai.fields["p1"][pos] = [0.0, 0.125, 0.25, 0.5, 0.125, 0.0, 1.0, 0.375][j]
         ai.fields["p3"][pos] = min(1.0, ai.fields["p1"][pos] + [0.5, 0.25, 0.75, 0.5, 0.875, 1.0, 0.0, 0.125][j])
+        ai.fields["p0.1"][pos] = [0.0, 0.125, 0.0, 0.25, 0.0, 0.0, 0.5, 0.125][j]      # differs from the ensemble fraction at 0.1
         ai.fields["q0.1"][pos] = 0.25 * j
         ai.fields["q0.9"][pos] = 0.25 * j + [2.0, 1.0, 3.0, 0.5][n % 4]
         ai.fields["pit"][pos] = [0.0, 0.125, 0.5, 0.625, 0.875, 1.0, 0.25, 0.5][j]
@@ -283,7 +284,7 @@ def h_data(ctx):
 
 
 def _stored(lo, hi):
-    return all(x in (1.0, 3.0) or math.isinf(x) for x in (lo, hi))
+    return all(x in (1.0, 3.0, 0.1) or math.isinf(x) for x in (lo, hi))
 
 
 QUANT_SETS = [[0.1, 0.9], [0.25, 0.75], [0.1], [0.5], [0.9]]
@@ -414,11 +415,11 @@ def h_quant(ctx):
 
 def plan(tier):
     q = tier == "quick"
-    thr = [[1.0, 3.0], [2.0], [1.5, 2.5], [1.0], [3.0]]
+    thr = [[1.0, 3.0], [2.0], [1.5, 2.5], [1.0], [3.0], [0.1]]      # 0.1: stored, but not exactly representable in the NetCDF file's float32
     return [("formulas", h_formulas, {"maxlen": 3 if q else 4}, "full", None),
             ("data-mem", h_data, {"via": "mem", "missfields": ["obs", "p1", "e0", "e2"], "thresholds": thr, "axes": ["no", "leadtime"]}, "dev", 1 if q else 2),
-            ("data-text", h_data, {"via": "text", "missfields": ["p3", "e1"], "thresholds": thr[:3], "axes": ["no", "location"]}, "dev", 1),
-            ("data-nc", h_data, {"via": "nc", "missfields": ["e0"], "thresholds": thr[:3], "axes": ["no"]}, "dev", 1),
+            ("data-text", h_data, {"via": "text", "missfields": ["p3", "e1"], "thresholds": thr[:3] + thr[5:], "axes": ["no", "location"]}, "dev", 1),
+            ("data-nc", h_data, {"via": "nc", "missfields": ["e0"], "thresholds": thr[:3] + thr[5:], "axes": ["no"]}, "dev", 1),
             ("quant-mem", h_quant, {"via": "mem", "missfields": ["obs", "q0.1", "e1", "pit"], "axes": ["no", "leadtime"]}, "dev", 1 if q else 2),
             ("quant-text", h_quant, {"via": "text", "missfields": ["q0.9", "e2"], "axes": ["no", "location"]}, "dev", 1)]
 
